@@ -59,10 +59,20 @@ def main():
             return 3
         # demo on the clean tree first
         shutil.copy(demo, os.path.join(wt, "tests", "zz_seed_demo.rs"))
-        demo_cmd = ["cargo", "test", "--offline", "--test", "zz_seed_demo"] + FEATS
+        # a demo may name the exact feature set it needs on its first line ("// features: swizzle");
+        # seeds that live behind one feature combination only show under that combination
+        demo_feats = FEATS
+        first = open(demo).readline()
+        m = re.match(r"//\s*features:\s*([^(]*)", first)
+        if m:
+            words = [w for w in re.split(r"[\s,]+", m.group(1).strip()) if w in ("swizzle", "mint", "serde", "bytemuck", "rand")]
+            if words or re.search(r"\bnone\b|\bdefault\b", m.group(1)):
+                demo_feats = ["--features", " ".join(words)] if words else []
+                report["demo_features"] = " ".join(words) or "none"
+        demo_cmd = ["cargo", "test", "--offline", "--test", "zz_seed_demo"] + demo_feats
         if os.environ.get("SEED_MIRI") == "1":
             # memory-safety seeds: the demonstration is judged by Miri (Tree Borrows), not by values
-            demo_cmd = ["cargo", "+nightly", "miri", "test", "--offline", "--test", "zz_seed_demo"] + FEATS
+            demo_cmd = ["cargo", "+nightly", "miri", "test", "--offline", "--test", "zz_seed_demo"] + demo_feats
             os.environ["MIRIFLAGS"] = "-Zmiri-tree-borrows"
             report["demo_runner"] = "cargo +nightly miri test (MIRIFLAGS=-Zmiri-tree-borrows)"
         rc_clean, out_clean = run(demo_cmd, wt)
